@@ -59,6 +59,7 @@ type c11Rec struct {
 	faults  map[string]map[int]error // fault class (begin prepare stmt commit rollback) -> 0-based call -> error
 	hit     int                      // faults actually injected
 	results []c11Result              // served to successive queries, then the default
+	repeat  bool                     // serve results[0] to every query instead of consuming it
 	iter    map[int]int              // statement ordinal (class "stmt") -> row whose fetch fails
 	conns   int
 }
@@ -210,7 +211,9 @@ func (r *c11Rec) nextResult() c11Result {
 	defer r.mu.Unlock()
 	if len(r.results) > 0 {
 		res := r.results[0]
-		r.results = r.results[1:]
+		if !r.repeat {
+			r.results = r.results[1:]
+		}
 		return res
 	}
 	return c11Result{Cols: []string{"c"}, Rows: [][]driver.Value{{int64(7)}}}
